@@ -474,7 +474,9 @@ CAMPAIGNS['C05'].append(
     camp('c05-threads-dependent', 'dep', {}, DEP_RULE, nontrivial=nt_threads,
          post='tag_all:C05', weight=0.4))
 CAMPAIGNS['C12'].append(
-    camp('c12-threads', 'threads', {'p_fail': 0.35, 'n_threads': (2, 3)},
+    camp('c12-threads', 'threads',
+         {'p_fail': 0.45, 'n_threads': (2, 3), 'p_in_sub': 0.1,
+          'p_in_file': 0.1},
          'clean after builds in which 2-3 simulated threads created shared '
          'new directory chains (two and more missing levels, some outputs '
          'failing): every directory the build created is recorded by exactly '
@@ -514,12 +516,13 @@ CAMPAIGNS['C10'].append(camp(
     sweep_max={'quick': 12, 'thorough': None}))
 CAMPAIGNS['C02'].append(
     camp('c02-threads-crash', 'threads',
-         {'p_foreign': 0.6, 'p_tamper': 0.7, 'p_fail': 0.15},
+         {'p_foreign': 0.6, 'p_tamper': 0.7, 'p_fail': 0.15, 'p_one_dir': 0.6,
+          'n_threads': (2, 3)},
          'builds in which 2-4 simulated threads move previous outputs and '
          'foreign files aside concurrently, crashed at every raise '
          'opportunity of the last build: every file is back afterwards',
          mode='crash-sweep', nontrivial=nt_threads, chunk=4,
-         fault_step='lastbuild', post='tag_all:C02', weight=0.5,
+         fault_step='any', post='tag_all:C02', weight=1.2,
          sweep_max={'quick': 10, 'thorough': None}, follow=1))
 CAMPAIGNS['C13'].append(camp(
     'c13-retry-faults', 'C13',
@@ -577,6 +580,40 @@ CAMPAIGNS['C13'].append(
          'files (an unchanged rebuild re-executes nothing, tampering is '
          'detected)', nontrivial=nt_threads, chunk=4, post='tag_all:C13',
          weight=0.6))
+CAMPAIGNS['C02'].append(
+    camp('c02-threads-sweep', 'threads',
+         {'p_root_raise': 1.0, 'p_one_dir': 0.5, 'p_foreign': 0.4,
+          'p_seq_first': 0.0, 'n_threads': (2, 3), 'p_fail': 0.15},
+         'the root function raises after 2-3 simulated threads built files '
+         'in new directory chains (and moved foreign files aside): complete '
+         'single-preemption sweep of the threaded build; whatever the '
+         'schedule, the pre-build state is back',
+         mode='sched-sweep', nontrivial=nt_threads, chunk=3,
+         post='tag_all:C02', weight=1.0,
+         sweep_max={'quick': 16, 'thorough': None}))
+CAMPAIGNS['C01'].append(camp(
+    'c01-reverts', 'C01',
+    dict(p_hash=0.75, mutation_ops=['revert', 'revert', 'revert', 'write',
+                                    'touch', 'rm'],
+         n_steps=(3, 6), p_mutate_step=0.6, p_tamper=0.85, n_init=(2, 6),
+         p_q_near_output=0.85, w_q=34, n_groups=(1, 1), n_paths=(3, 5),
+         p_catch=0.85, w_raise=3),
+    'foreign files at output paths, read (HASH) and then overwritten by the '
+    'build; between builds somebody puts files back to exactly the content '
+    'they had before the previous build (a comparison result remembered '
+    'from before the file was rebuilt would make the tampering invisible)',
+    weight=0.6))
+CAMPAIGNS['C12'].append(
+    camp('c12-threads-sweep', 'threads',
+         {'p_fail': 0.5, 'n_threads': (3, 3), 'p_in_sub': 0.0,
+          'p_in_file': 0.0, 'p_one_dir': 0.5, 'p_seq_first': 0.0},
+         'three root-level simulated threads build and fail to build files '
+         'in shared new directory chains while one of them looks at those '
+         'directories; complete single-preemption sweep of the first '
+         'threaded build; clean afterwards removes every directory',
+         mode='sched-sweep', nontrivial=nt_threads, chunk=3,
+         post='tag_all:C12', weight=0.8,
+         sweep_max={'quick': 16, 'thorough': None}))
 RACE_RULE = ('a key (build_file path / subbuild name+arguments) performed '
              'directly by one thread while another thread reuses or '
              're-executes a cached subtree (depth 1-2) that contains it; '
